@@ -16,11 +16,12 @@ from sexp import Sym
 from props._slicing_util import (canon_slice, compositions, dec_slice, enc_slice, random_chunks, slice_steps,
                                  slice_values, unsym)
 from props import _c20x
+from props import _c20xm
 
 PROP = "C20"
 READY = True
 DRIVER = "dm_slicing"
-LEAN_MODULES = ["DaskModel.Props.C20", "DaskModel.Props.C20Cache", "DaskModel.Props.C20x"]
+LEAN_MODULES = ["DaskModel.Props.C20", "DaskModel.Props.C20Cache", "DaskModel.Props.C20x", "DaskModel.Props.C20xMask"]
 TABLES = ["ChunkTolerance"]   # array.chunk-size-tolerance (dask.yaml), used by the take/_shuffle regrouping model
 CASE_TIMEOUT_S = 20
 LEVEL_TEXT = (
@@ -1280,6 +1281,7 @@ def case_blocks(ctx, inp):
 CASES = {"exotic": case_exotic, "maskfull": case_maskfull, "normidx": case_normidx, "take": case_take, "pyslice": case_pyslice, "norm": case_norm, "slice1d": case_slice1d, "slice1dint": case_slice1dint, "slicend": case_slicend,
          "api1d": case_api1d, "apind": case_apind, "vindex": case_vindex, "vindexplan": case_vindexplan, "cache": case_cache, "hist": case_hist, "blocks": case_blocks}
 CASES.update(_c20x.CASES)      # extension round: blockview, intdaskchunk, intdaskagg, intdask
+CASES.update(_c20xm.CASES)     # last round: boolmask (1-d dask boolean mask)
 
 
 # --------------------------------------------------------------------------------------
@@ -1814,6 +1816,7 @@ def generate(ctx):
         yield "blocks", {"shape": shape, "chunks": chunks, "index": spec}
     # extension round: BlockView graph/chunks and the dask integer-array index plan against their Lean models
     yield from _c20x.generate(ctx)
+    yield from _c20xm.generate(ctx)
 
 
 def search(ctx):
